@@ -686,7 +686,7 @@ class Machine:
                 ety, ev = self._split_type(e)
                 self._init_cells(ety, ev, base + i * es, cells)
             return
-        if ty.startswith("%") or ty.startswith("{"):
+        if (ty.startswith("%") or ty.startswith("{")) and not ty.endswith("*"):
             offs = self.field_offsets(ty)
             assert init.startswith("{"), init[:40]
             elems = split_top(init[1:-1].strip())
@@ -718,13 +718,13 @@ class Machine:
             es = self.type_size_align(m.group(2))[0]
             for i in range(int(m.group(1))):
                 self._zero_cells(m.group(2), base + i * es, cells)
+        elif ty.endswith("*"):
+            cells[base] = Ptr("null", 0)
         elif ty.startswith("%") or ty.startswith("{"):
             for o, ft in self.field_offsets(ty):
                 self._zero_cells(ft, base + o, cells)
         elif ty == "double":
             cells[base] = Fraction(0)
-        elif ty.endswith("*"):
-            cells[base] = Ptr("null", 0)
         else:
             cells[base] = 0
 
